@@ -81,7 +81,7 @@ KNOWN = {'internet/asyncioreactor.py': {'AsyncioSelectorReactor': ['__init__', '
 def _views(ctx):
     v = ctx.__dict__.get("_views_d")
     if v is None:
-        v = ctx.__dict__["_views_d"] = Views(ctx, KNOWN, extended=True)
+        v = ctx.__dict__["_views_d"] = Views(ctx, KNOWN, extended=True, base_modules={POLL: [PB], EPOLL: [PB], SEL: [PB], AIO: [PB]})
     return v
 
 
@@ -421,7 +421,7 @@ def _check(ctx):
             fires = g.find(lambda x: isinstance(x, ast.Call) and (any(src(a) in drdw for a in x.args) or src(x.func) in drdw))
             ctx.need(fires, f"dispatch through _doReadOrWrite in {cls}.doPoll")
             look = [n.id for n in g.nodes if n.kind == "stmt" and g.reachable(n.id) and isinstance(n.ast, ast.Assign)
-                    and src(resolve_locals(f, n.ast.value)) == "self._selectables[fd]"]
+                    and src(resolve_locals(f, n.ast.value)) in ("self._selectables[fd]", "self._selectables.get(fd)", "self._selectables.get(fd, None)")]
             for n in fires:
                 c = ctx.construct(q, g.node(n).ast)
                 w = g.must_precede(look, [n])
@@ -429,6 +429,12 @@ def _check(ctx):
                           "an event is dispatched without looking the descriptor up in self._selectables in this iteration "
                           "(a connection removed by an earlier handler would get doRead/doWrite after connectionLost)", witness=g.describe(w))
                 for l in look:
+                    if ".get(" in src(g.node(l).ast.value):
+                        # lookup that answers None for a descriptor that is gone: the dispatch must be reached only with something found
+                        var = src(g.node(l).ast.targets[0])
+                        ctx.check(implied(g, n, [{var: NONNULL}], [{var: None}], after=[l]), "loop/unregistered-skipped", ctx.construct(q, g.node(l).ast),
+                                  "an event for a descriptor that is no longer registered is not skipped (None is dispatched)")
+                        continue
                     hs = [h for h in succ_of(g, l, "exc") if g.node(h).kind == "handler" and "KeyError" in handler_names(g.node(h).ast)]
                     bad = [h for h in hs if g.path([h], [n], avoid=look, edge_ok=lambda a, b, lab: lab != "exc")]
                     guarded = any(src(resolve_locals(f, g.node(t).ast)) in ("fd in self._selectables", "fd not in self._selectables")
@@ -644,7 +650,6 @@ def _check(ctx):
         g = ctx.cfg(f)
         q = Q + "tcp.Connection.doRead"
         lost = [n.id for n in g.nodes if n.kind == "stmt" and isinstance(n.ast, ast.Return) and n.ast.value is not None and "CONNECTION_LOST" in src(n.ast.value)]
-        ctx.floor("tcp-read/wouldblock", len(lost), 1)
         recv0 = calls_with(g, "self.socket.recv")
         ctx.need(recv0, "self.socket.recv in doRead")
         allh, hs, facts = _errno_cases(g, recv0[0][0])
@@ -742,7 +747,6 @@ def _check(ctx):
                       "writeSomeData reports 0 bytes for an error other than EWOULDBLOCK/ENOBUFS")
             ctx.check(bool(ends) and all(v is _LOST for _, v in ends), "tcp-write/error-is-loss", q + " | <errno other than EWOULDBLOCK/ENOBUFS>",
                       "a failing send() is not reported as CONNECTION_LOST: writeSomeData returns " + repr([v for _, v in ends]))
-        ctx.floor("tcp-write", len(zero) + len(lost), 2)
 
     with ctx.section("tcp Connection._closeWriteConnection"):
         # ---- tcp Connection._closeWriteConnection
@@ -843,6 +847,10 @@ def _check(ctx):
 
 
 MUTANTS = [
+    Mutant("tcp-read-conditional-return-inverted", TCP, '            if se.args[0] == EWOULDBLOCK:\n                return\n            else:\n                return main.CONNECTION_LOST\n\n        return self._dataReceived(data)\n', '            return main.CONNECTION_LOST if se.args[0] == EWOULDBLOCK else None\n        else:\n            return self._dataReceived(data)\n', expect_rule="tcp-read/"),
+    Mutant("polllike-helper-write-dispatched-after-failed-read", PB, "            # Any non-disconnect event turns into a doRead or a doWrite.\n            try:\n                # First check to see if the descriptor is still valid.  This\n                # gives fileno() a chance to raise an exception, too.\n                # Ideally, disconnection would always be indicated by the\n                # return value of doRead or doWrite (or an exception from\n                # one of those methods), but calling fileno here helps make\n                # buggy applications more transparent.\n                if selectable.fileno() == -1:\n                    # -1 is sort of a historical Python artifact.  Python\n                    # files and sockets used to change their file descriptor\n                    # to -1 when they closed.  For the time being, we'll\n                    # continue to support this anyway in case applications\n                    # replicated it, plus abstract.FileDescriptor.fileno\n                    # returns -1.  Eventually it'd be good to deprecate this\n                    # case.\n                    why = _NO_FILEDESC\n                else:\n                    if event & self._POLL_IN:\n                        # Handle a read event.\n                        why = selectable.doRead()\n                        inRead = True\n                    if not why and event & self._POLL_OUT:\n                        # Handle a write event, as long as doRead didn't\n                        # disconnect us.\n                        why = selectable.doWrite()\n                        inRead = False\n            except BaseException:\n                # Any exception from application code gets logged and will\n                # cause us to disconnect the selectable.\n                why = sys.exc_info()[1]\n                log.err()\n", '            why, inRead = self._runHandlers(selectable, event)\n',
+           more=[(PB, "    def _doReadOrWrite(self, selectable, fd, event):\n", '    def _runHandlers(self, selectable, event):\n        why = None\n        inRead = False\n        try:\n            if selectable.fileno() == -1:\n                return _NO_FILEDESC, inRead\n            if event & self._POLL_IN:\n                why = selectable.doRead()\n                inRead = True\n            if event & self._POLL_OUT:\n                why = selectable.doWrite()\n                inRead = False\n        except BaseException:\n            why = sys.exc_info()[1]\n            log.err()\n        return why, inRead\n\n    def _doReadOrWrite(self, selectable, fd, event):\n')], expect_rule="dispatch/"),
+    Mutant("epoll-lookup-by-get-without-none-guard", EPOLL, '            try:\n                selectable = self._selectables[fd]\n            except KeyError:\n                pass\n            else:\n                log.callWithLogger(selectable, _drdw, selectable, fd, event)\n\n    doIteration = doPoll\n\n\ndef install():\n    """\n    Install the epoll() reactor.', '            selectable = self._selectables.get(fd)\n            log.callWithLogger(selectable, _drdw, selectable, fd, event)\n\n    doIteration = doPoll\n\n\ndef install():\n    """\n    Install the epoll() reactor.', expect_rule="loop/unregistered-skipped"),
     Mutant("disconnect-writer-removed-up-front-also-on-half-close", PB, "        self.removeReader(selectable)\n        f = faildict.get(why.__class__)\n",
            "        self.removeReader(selectable)\n        self.removeWriter(selectable)\n        f = faildict.get(why.__class__)\n", expect_rule="disconnect/half-close-keeps-writer"),
     Mutant("disconnect-canned-reason-replaced-by-fresh-failure", PB, "                self.removeWriter(selectable)\n                selectable.connectionLost(f)\n",
@@ -929,6 +937,10 @@ MUTANTS = [
            "            except KeyError:\n                pass\n", expect_rule="loop/unregistered-skipped"),
 ]
 SILENT = [
+    Silent("tcp-read-handler-returns-a-conditional-expression", TCP, '            if se.args[0] == EWOULDBLOCK:\n                return\n            else:\n                return main.CONNECTION_LOST\n\n        return self._dataReceived(data)\n', '            return None if se.args[0] == EWOULDBLOCK else main.CONNECTION_LOST\n        else:\n            return self._dataReceived(data)\n'),
+    Silent("polllike-handlers-run-in-a-helper-returning-a-pair-from-inside-try", PB, "            # Any non-disconnect event turns into a doRead or a doWrite.\n            try:\n                # First check to see if the descriptor is still valid.  This\n                # gives fileno() a chance to raise an exception, too.\n                # Ideally, disconnection would always be indicated by the\n                # return value of doRead or doWrite (or an exception from\n                # one of those methods), but calling fileno here helps make\n                # buggy applications more transparent.\n                if selectable.fileno() == -1:\n                    # -1 is sort of a historical Python artifact.  Python\n                    # files and sockets used to change their file descriptor\n                    # to -1 when they closed.  For the time being, we'll\n                    # continue to support this anyway in case applications\n                    # replicated it, plus abstract.FileDescriptor.fileno\n                    # returns -1.  Eventually it'd be good to deprecate this\n                    # case.\n                    why = _NO_FILEDESC\n                else:\n                    if event & self._POLL_IN:\n                        # Handle a read event.\n                        why = selectable.doRead()\n                        inRead = True\n                    if not why and event & self._POLL_OUT:\n                        # Handle a write event, as long as doRead didn't\n                        # disconnect us.\n                        why = selectable.doWrite()\n                        inRead = False\n            except BaseException:\n                # Any exception from application code gets logged and will\n                # cause us to disconnect the selectable.\n                why = sys.exc_info()[1]\n                log.err()\n", '            why, inRead = self._runHandlers(selectable, event)\n',
+           more=[(PB, "    def _doReadOrWrite(self, selectable, fd, event):\n", '    def _runHandlers(self, selectable, event):\n        why = None\n        inRead = False\n        try:\n            if selectable.fileno() == -1:\n                return _NO_FILEDESC, inRead\n            if event & self._POLL_IN:\n                why = selectable.doRead()\n                inRead = True\n            if not why and event & self._POLL_OUT:\n                why = selectable.doWrite()\n                inRead = False\n        except BaseException:\n            why = sys.exc_info()[1]\n            log.err()\n        return why, inRead\n\n    def _doReadOrWrite(self, selectable, fd, event):\n')]),
+    Silent("epoll-lookup-by-get-with-none-guard", EPOLL, '            try:\n                selectable = self._selectables[fd]\n            except KeyError:\n                pass\n            else:\n                log.callWithLogger(selectable, _drdw, selectable, fd, event)\n\n    doIteration = doPoll\n\n\ndef install():\n    """\n    Install the epoll() reactor.', '            selectable = self._selectables.get(fd)\n            if selectable is None:\n                continue\n            log.callWithLogger(selectable, _drdw, selectable, fd, event)\n\n    doIteration = doPoll\n\n\ndef install():\n    """\n    Install the epoll() reactor.'),
     Silent("disconnect-notification-selected-then-called", PB,
            "        if f:\n            if (\n                isRead\n                and why.__class__ == error.ConnectionDone\n                and IHalfCloseableDescriptor.providedBy(selectable)\n            ):\n"
            "                selectable.readConnectionLost(f)\n            else:\n                self.removeWriter(selectable)\n                selectable.connectionLost(f)\n"
